@@ -1,4 +1,5 @@
+CONSTANTS Design = "repaired"
 SPECIFICATION Spec
-INVARIANTS C17_NoWeakening C17_NoWeakeningTdx C17_FromEndorsement Emit
+INVARIANTS C17_NoWeakening C17_NoWeakeningTdx C17_FromEndorsement C17_NoBaseMeansEndorsement Emit
 PROPERTIES C17_BaseUntouched
 CHECK_DEADLOCK FALSE
